@@ -172,6 +172,13 @@ func genEexecPlain(c *rt.C, env *psEnv, full []poolItem) ([]byte, bool) {
 			out.WriteString(" def\n")
 			hasBin = true
 		case 5:
+			if rng.IntN(3) == 0 {
+				// non-tail recursion to within a few levels of the execution
+				// stack limit, counting how far it got (the section itself must not
+				// cost a level that the plaintext does not have)
+				fmt.Fprintf(&out, "/cnt%d 0 def /rec%d { /cnt%d cnt%d 1 add def dup 0 gt { 1 sub rec%d 0 pop } if } def %d rec%d pop\n", i, i, i, i, i, 90+rng.IntN(14), i)
+				break
+			}
 			// extra dictionaries left open inside the section
 			out.WriteString("3 dict begin /inner 1 def\n")
 		}
@@ -215,7 +222,9 @@ func runC05(r *rt.Runner) {
 					A.WriteString(txt + "\n")
 				}
 			}
+			deepStack := false
 			if rng.IntN(8) == 0 {
+				deepStack = true
 				// many dictionaries already open when the section starts: up to the
 				// last free slot of the dictionary stack (and the full stack)
 				k := []int{14, 15, 16, 17, 18}[rng.IntN(5)]
@@ -286,11 +295,22 @@ func runC05(r *rt.Runner) {
 			// run 1: the encrypted file
 			i1 := postscript.NewInterpreter()
 			i1.MaxOps = 2_000_000
-			err1 := i1.Execute(bytes.NewReader(file.Bytes()))
-
 			// run 2: the plaintext, by hand
 			i2 := postscript.NewInterpreter()
 			i2.MaxOps = 2_000_000
+			if !deepStack && rng.IntN(6) == 0 {
+				// both interpreters have a history: an earlier Execute call whose
+				// encrypted section ended by an error (the section is not closed
+				// regularly; the system dictionary stays where it was pushed)
+				hp := []string{"/h1 1 def nosuchname /h2 2 def", "/h1 1 def 1 (a) add", "/h1 { 1 } def h1 pop ) "}[rng.IntN(3)]
+				hl := layoutSection(rng, []byte(hp+" "), bm, false)
+				i1.Execute(bytes.NewReader(append([]byte("currentfile eexec\n"), hl.text...)))
+				i2.DictStack = append(i2.DictStack, i2.SystemDict)
+				i2.Execute(bytes.NewReader([]byte(hp + " ")))
+				i1.Stack, i2.Stack = i1.Stack[:0], i2.Stack[:0]
+				c.Count("sections run on an interpreter with an unfinished earlier section")
+			}
+			err1 := i1.Execute(bytes.NewReader(file.Bytes()))
 			err2 := i2.Execute(bytes.NewReader(A.Bytes()))
 			fullStack := false
 			if err2 == nil {
